@@ -60,8 +60,17 @@ def gen_generator_nested(rng, tier):
     for c in range(rng.randint(1, 2)):
         gens.append(f"g{c}")
         ops.append({"op": "gen_new", "gen": f"g{c}", "fn": qual, "nargs": 1})
+    pumped = qual in ("gen", "gen2") and rng.random() < 0.5
+    if pumped:
+        # ... and it is advanced from inside the calls of another function too (pump calls g itself
+        # as well: those values are not the generator's)
+        ops[-1]["as_global"] = "GEN"
+        ops.insert(1, {"op": "tool", "fn": "pump", "how": "inplace"})
     for _ in range(rng.randint(3, 9)):
         r = rng.random()
+        if pumped and rng.random() < 0.3:
+            ops.append({"op": "call", "fn": "pump", "nargs": 1, "tape": gen_tape(rng, 8, odd=0.5), "faults": {}})
+            continue
         if r < 0.3:
             if by_id is None:
                 # (a probe is spent once it has been deactivated: every bystander is a new one)
